@@ -39,6 +39,11 @@ def profile(**kw):
 
 
 def gen_scenario(rng, prof):
+    # staged scenarios (run_from_states) visit equal-depth start states in hash order: only state-based predicates and
+    # finite state spaces make the evaluated sets independent of that order
+    do_staged = rng.random() < prof["staged"]
+    if do_staged:
+        prof = dict(prof, terminating=True)
     lines = []
     nn = rng.randint(*prof["nodes"])
     np_ = max(rng.randint(*prof["procs"]), 1)
@@ -153,7 +158,7 @@ def gen_scenario(rng, prof):
     strat = rng.choice(prof["strategies"]); cache = rng.choice(prof["caches"])
     pr = preds()
     lines.append(f"run {strat} {cache} {pr}")
-    if rng.random() < prof["staged"]:
+    if do_staged:
         lines += [l for l in callbacks() if not l.startswith("cb mode")]
         lines.append(f"runfrom {rng.choice(prof['strategies'])} {rng.choice(prof['caches'])} {preds()}")
     if rng.random() < prof["two_runs"]:
@@ -177,13 +182,18 @@ def project(line, fields, noids=False):
         return line
     out = [m.group("tag")]
     for f in fields:
+        if f in ("P", "T"):
+            continue
         v = m.group(f)
         if f == "E" and noids:
             items = re.findall(r"\d+:((?:M|T)\(.*?\))(?=,\d+:|\]$)", v)
             v = "[" + ",".join(sorted(items)) + "]"
         out.append(f"{f}={v}")
+    if "P" in fields:
+        pm = re.search(r"P\[.*?\]\]?", m.group("rest"))
+        out.append(pm.group(0) if pm else "P-")
     if "T" in fields or m.group("tag") in "CT":
-        out.append(m.group("rest"))
+        out.append(re.sub(r" P\[.*?\]\]", "", m.group("rest")) if "P" not in fields else m.group("rest"))
     return " ".join(out)
 
 
@@ -269,6 +279,10 @@ def compare(impl, model, scen_lines, fields=ALL_FIELDS, noids=False, seq=True):
             ta = [project(l, fields, noids) for l in a["T"]]; tb = [project(l, fields, noids) for l in b["T"]]
             if ta != tb:
                 return f"run {k}: error state/trace differs:\n#   impl:  {ta}\n#   model: {tb}"
+        if multi and " disabled " not in runlines[k] + " ":
+            # with a shared visited cache the start state of a later run may have been evaluated before: how often a
+            # goal/pruned state is counted then depends on the (hash) order of equal-depth start states
+            continue
         if norm_stat(a["stat"]) != norm_stat(b["stat"]):
             return f"run {k}: status counts differ: impl {a['stat']} model {b['stat']}"
     return None
